@@ -124,6 +124,16 @@ func (ch *dagChannel) reportSkip(keys []string) bool {
 		}
 	}
 	ch.Skipped = allSkipped
+	if allSkipped {
+		// what had already been delivered to this node is never going to be read: the stream copies are given up
+		// here, otherwise their source is never closed (reportValues does the same for what arrives later)
+		for k, v := range ch.Values {
+			if sr, ok := v.(streamReader); ok {
+				sr.close()
+			}
+			delete(ch.Values, k)
+		}
+	}
 
 	return allSkipped
 }
